@@ -15,7 +15,7 @@ use serde_json::json;
 use std::collections::{BTreeMap, BTreeSet, HashMap};
 use vh::*;
 use write_fonts::tables::gpos as wgpos;
-use write_fonts::tables::gpos::builders::{AnchorBuilder, MarkToBaseBuilder, PairPosBuilder, ValueRecordBuilder};
+use write_fonts::tables::gpos::builders::{AnchorBuilder, CursivePosBuilder, MarkToBaseBuilder, MarkToLigBuilder, MarkToMarkBuilder, PairPosBuilder, ValueRecordBuilder};
 use write_fonts::tables::layout as wlayout;
 use write_fonts::tables::layout::builders::{Builder, ClassDefBuilder, CoverageTableBuilder, DeviceOrDeltas, LookupBuilder, Metric};
 use write_fonts::tables::variations::ivs_builder::VariationStoreBuilder;
@@ -647,6 +647,14 @@ enum Spec {
     DirectPP1 { sets: BTreeMap<u16, Vec<(u16, Val, Val)>>, vf: (Val, Val) },
     /// rules through MarkToBaseBuilder
     M2B { marks: Vec<(u16, usize, Anc)>, bases: Vec<(u16, usize, Anc)> },
+    /// rules through MarkToMarkBuilder (insert_mark1 / insert_mark2)
+    M2M { marks: Vec<(u16, usize, Anc)>, bases: Vec<(u16, usize, Anc)> },
+    /// a sequence of MarkToLigBuilder::insert_ligature(glyph, class, components) calls
+    M2L { marks: Vec<(u16, usize, Anc)>, ligs: Vec<(u16, usize, Vec<Option<Anc>>)> },
+    /// a sequence of CursivePosBuilder::insert(glyph, entry, exit) calls
+    Cursive { items: Vec<(u16, Option<Anc>, Option<Anc>)> },
+    /// several builders of the same kind (all Pair or all M2B) in ONE lookup: explicit subtable breaks
+    Multi(Vec<Spec>),
 }
 #[derive(Clone, Debug)]
 struct LookupSpec {
@@ -708,18 +716,56 @@ impl PairSem {
         }
         PairSem { pair_map, groups }
     }
-    fn eval(&self, a: u16, b: u16) -> Option<VV> {
+    /// Some(answer) when this builder's subtables DECIDE the pair (Some(None) = covered, empty record)
+    fn eval2(&self, a: u16, b: u16) -> Option<Option<VV>> {
         if let Some(v) = self.pair_map.get(&(a, b)) {
-            return Some(v.clone());
+            return Some(Some(v.clone()));
         }
         for g in &self.groups {
             if let Some(i) = g.g1.get(&a) {
                 // the first class subtable that covers the first glyph decides
-                return g.g2.get(&b).and_then(|j| g.rules.get(&(*i, *j)).cloned());
+                return Some(g.g2.get(&b).and_then(|j| g.rules.get(&(*i, *j)).cloned()));
             }
         }
         None
     }
+}
+/// several builders in one lookup: their subtables follow each other, the first that decides wins
+struct MultiSem {
+    segs: Vec<PairSem>,
+}
+impl MultiSem {
+    fn eval(&self, a: u16, b: u16) -> Option<VV> {
+        for s in &self.segs {
+            if let Some(d) = s.eval2(a, b) {
+                return d;
+            }
+        }
+        None
+    }
+    fn has_specific_pair(&self, a: u16, b: u16) -> bool {
+        self.segs.iter().any(|s| s.pair_map.contains_key(&(a, b)))
+    }
+}
+fn pair_builder(pairs: &[(u16, u16, Val, Val)], classes: &[(Vec<u16>, Vec<u16>, Val, Val)]) -> PairPosBuilder {
+    let mut b = PairPosBuilder::default();
+    for (a, c, v1, v2) in pairs {
+        b.insert_pair(gid(*a), vrb_of_val(v1), gid(*c), vrb_of_val(v2));
+    }
+    for (c1, c2, v1, v2) in classes {
+        b.insert_classes(c1.iter().map(|g| gid(*g)).collect(), vrb_of_val(v1), c2.iter().map(|g| gid(*g)).collect(), vrb_of_val(v2));
+    }
+    b
+}
+fn m2b_builder(marks: &[(u16, usize, Anc)], bases: &[(u16, usize, Anc)]) -> MarkToBaseBuilder {
+    let mut b = MarkToBaseBuilder::default();
+    for (g, c, a) in marks {
+        let _ = b.insert_mark(gid(*g), &format!("c{}", c), ab_of_anc(a));
+    }
+    for (g, c, a) in bases {
+        b.insert_base(gid(*g), &format!("c{}", c), ab_of_anc(a));
+    }
+    b
 }
 
 fn build_lookup(ls: &LookupSpec, vs: &mut VariationStoreBuilder) -> wgpos::PositionLookup {
@@ -758,6 +804,47 @@ fn build_lookup(ls: &LookupSpec, vs: &mut VariationStoreBuilder) -> wgpos::Posit
             let lb = LookupBuilder::new_with_lookups(flags, ls.mfs, vec![b]);
             wgpos::PositionLookup::MarkToBase(lb.build(vs))
         }
+        Spec::M2M { marks, bases } => {
+            let mut b = MarkToMarkBuilder::default();
+            for (g, c, a) in marks {
+                let _ = b.insert_mark1(gid(*g), &format!("c{}", c), ab_of_anc(a));
+            }
+            for (g, c, a) in bases {
+                b.insert_mark2(gid(*g), &format!("c{}", c), ab_of_anc(a));
+            }
+            let lb = LookupBuilder::new_with_lookups(flags, ls.mfs, vec![b]);
+            wgpos::PositionLookup::MarkToMark(lb.build(vs))
+        }
+        Spec::M2L { marks, ligs } => {
+            let mut b = MarkToLigBuilder::default();
+            for (g, c, a) in marks {
+                let _ = b.insert_mark(gid(*g), &format!("c{}", c), ab_of_anc(a));
+            }
+            for (g, c, comps) in ligs {
+                b.insert_ligature(gid(*g), &format!("c{}", c), comps.iter().map(|a| a.as_ref().map(ab_of_anc)).collect());
+            }
+            let lb = LookupBuilder::new_with_lookups(flags, ls.mfs, vec![b]);
+            wgpos::PositionLookup::MarkToLig(lb.build(vs))
+        }
+        Spec::Cursive { items } => {
+            let mut b = CursivePosBuilder::default();
+            for (g, en, ex) in items {
+                b.insert(gid(*g), en.as_ref().map(ab_of_anc), ex.as_ref().map(ab_of_anc));
+            }
+            let lb = LookupBuilder::new_with_lookups(flags, ls.mfs, vec![b]);
+            wgpos::PositionLookup::Cursive(lb.build(vs))
+        }
+        Spec::Multi(parts) => match &parts[0] {
+            Spec::Pair { .. } => {
+                let bs: Vec<PairPosBuilder> = parts.iter().map(|p| match p { Spec::Pair { pairs, classes } => pair_builder(pairs, classes), _ => panic!("mixed Multi") }).collect();
+                wgpos::PositionLookup::Pair(LookupBuilder::new_with_lookups(flags, ls.mfs, bs).build(vs))
+            }
+            Spec::M2B { .. } => {
+                let bs: Vec<MarkToBaseBuilder> = parts.iter().map(|p| match p { Spec::M2B { marks, bases } => m2b_builder(marks, bases), _ => panic!("mixed Multi") }).collect();
+                wgpos::PositionLookup::MarkToBase(LookupBuilder::new_with_lookups(flags, ls.mfs, bs).build(vs))
+            }
+            _ => panic!("unsupported Multi"),
+        },
     }
 }
 
@@ -768,6 +855,9 @@ enum Sub<'a> {
     PP1 { cov: rlayout::CoverageTable<'a>, sets: Vec<(HashMap<u16, VV>, i64)> },
     PP2 { cov: rlayout::CoverageTable<'a>, cd1: rlayout::ClassDef<'a>, cd2: rlayout::ClassDef<'a>, m: Vec<Vec<VV>>, rowfp: Vec<i64> },
     M2B { mcov: rlayout::CoverageTable<'a>, bcov: rlayout::CoverageTable<'a>, ncls: u16, marks: Vec<(u16, Anc)>, bases: Vec<Vec<Option<Anc>>> },
+    /// MarkLigPos: ligs[ligature index][component][class]
+    M2L { mcov: rlayout::CoverageTable<'a>, lcov: rlayout::CoverageTable<'a>, ncls: u16, marks: Vec<(u16, Anc)>, ligs: Vec<Vec<Vec<Option<Anc>>>> },
+    Cur { cov: rlayout::CoverageTable<'a>, recs: Vec<(Option<Anc>, Option<Anc>)> },
 }
 struct Lk<'a> {
     ty: u16,
@@ -839,6 +929,50 @@ fn decode_m2b<'a>(t: &rgpos::MarkBasePosFormat1<'a>) -> Sub<'a> {
     Sub::M2B { mcov: t.mark_coverage().unwrap(), bcov: t.base_coverage().unwrap(), ncls: t.mark_class_count(), marks, bases }
 }
 
+fn decode_m2m<'a>(t: &rgpos::MarkMarkPosFormat1<'a>) -> Sub<'a> {
+    let ma = t.mark1_array().unwrap();
+    let mdata = ma.offset_data();
+    let marks: Vec<(u16, Anc)> = ma.mark_records().iter().map(|r| (r.mark_class(), anc_of_r(&r.mark_anchor(mdata).unwrap()))).collect();
+    let ba = t.mark2_array().unwrap();
+    let bdata = ba.offset_data();
+    let mut bases = vec![];
+    for r in ba.mark2_records().iter() {
+        let r = r.unwrap();
+        bases.push(r.mark2_anchors(bdata).iter().map(|a| a.map(|a| anc_of_r(&a.unwrap()))).collect());
+    }
+    // same meaning as mark-to-base: (mark1, mark2) -> (mark1 anchor, mark2 anchor of mark1's class)
+    Sub::M2B { mcov: t.mark1_coverage().unwrap(), bcov: t.mark2_coverage().unwrap(), ncls: t.mark_class_count(), marks, bases }
+}
+fn decode_m2l<'a>(t: &rgpos::MarkLigPosFormat1<'a>) -> Sub<'a> {
+    let ma = t.mark_array().unwrap();
+    let mdata = ma.offset_data();
+    let marks: Vec<(u16, Anc)> = ma.mark_records().iter().map(|r| (r.mark_class(), anc_of_r(&r.mark_anchor(mdata).unwrap()))).collect();
+    let la = t.ligature_array().unwrap();
+    let mut ligs = vec![];
+    for att in la.ligature_attaches().iter() {
+        let att = att.unwrap();
+        let d = att.offset_data();
+        let mut comps = vec![];
+        for c in att.component_records().iter() {
+            let c = c.unwrap();
+            comps.push(c.ligature_anchors(d).iter().map(|a| a.map(|a| anc_of_r(&a.unwrap()))).collect::<Vec<Option<Anc>>>());
+        }
+        if comps.len() != att.component_count() as usize {
+            panic!("component count disagrees");
+        }
+        ligs.push(comps);
+    }
+    Sub::M2L { mcov: t.mark_coverage().unwrap(), lcov: t.ligature_coverage().unwrap(), ncls: t.mark_class_count(), marks, ligs }
+}
+fn decode_cursive<'a>(t: &rgpos::CursivePosFormat1<'a>) -> Sub<'a> {
+    let d = t.offset_data();
+    let recs = t
+        .entry_exit_record()
+        .iter()
+        .map(|r| (r.entry_anchor(d).map(|a| anc_of_r(&a.unwrap())), r.exit_anchor(d).map(|a| anc_of_r(&a.unwrap()))))
+        .collect();
+    Sub::Cur { cov: t.coverage().unwrap(), recs }
+}
 fn decode_lookup<'a>(l: &rgpos::PositionLookup<'a>) -> Lk<'a> {
     let mut subs = vec![];
     let mut ext_types = vec![];
@@ -853,9 +987,36 @@ fn decode_lookup<'a>(l: &rgpos::PositionLookup<'a>) -> Lk<'a> {
                 subs.push(decode_m2b(&s.unwrap()));
             }
         }
+        rgpos::PositionLookup::MarkToMark(l) => {
+            for s in l.subtables().iter() {
+                subs.push(decode_m2m(&s.unwrap()));
+            }
+        }
+        rgpos::PositionLookup::MarkToLig(l) => {
+            for s in l.subtables().iter() {
+                subs.push(decode_m2l(&s.unwrap()));
+            }
+        }
+        rgpos::PositionLookup::Cursive(l) => {
+            for s in l.subtables().iter() {
+                subs.push(decode_cursive(&s.unwrap()));
+            }
+        }
         rgpos::PositionLookup::Extension(l) => {
             for s in l.subtables().iter() {
                 match s.unwrap() {
+                    rgpos::ExtensionSubtable::MarkToMark(e) => {
+                        ext_types.push(e.extension_lookup_type());
+                        subs.push(decode_m2m(&e.extension().unwrap()));
+                    }
+                    rgpos::ExtensionSubtable::MarkToLig(e) => {
+                        ext_types.push(e.extension_lookup_type());
+                        subs.push(decode_m2l(&e.extension().unwrap()));
+                    }
+                    rgpos::ExtensionSubtable::Cursive(e) => {
+                        ext_types.push(e.extension_lookup_type());
+                        subs.push(decode_cursive(&e.extension().unwrap()));
+                    }
                     rgpos::ExtensionSubtable::Pair(e) => {
                         ext_types.push(e.extension_lookup_type());
                         subs.push(decode_pairpos(&e.extension().unwrap()));
@@ -894,7 +1055,7 @@ fn walk_pair(lk: &Lk, a: u16, b: u16) -> Option<VV> {
                     }
                 }
             }
-            Sub::M2B { .. } => {}
+            _ => {}
         }
     }
     None
@@ -916,6 +1077,35 @@ fn walk_mark(lk: &Lk, m: u16, b: u16) -> Option<(Anc, Anc)> {
     None
 }
 
+fn walk_lig(lk: &Lk, m: u16, l: u16, comp: usize) -> Option<(Anc, Anc)> {
+    for s in &lk.subs {
+        if let Sub::M2L { mcov, lcov, ncls, marks, ligs } = s {
+            if let (Some(mi), Some(li)) = (mcov.get(gid(m)), lcov.get(gid(l))) {
+                if let (Some((cls, ma)), Some(comps)) = (marks.get(mi as usize), ligs.get(li as usize)) {
+                    if *cls < *ncls {
+                        if let Some(Some(la)) = comps.get(comp).and_then(|c| c.get(*cls as usize)) {
+                            return Some((ma.clone(), la.clone()));
+                        }
+                    }
+                }
+            }
+        }
+    }
+    None
+}
+fn walk_cursive(lk: &Lk, g: u16) -> Option<(Option<Anc>, Option<Anc>)> {
+    for s in &lk.subs {
+        if let Sub::Cur { cov, recs } = s {
+            if let Some(i) = cov.get(gid(g)) {
+                if let Some(r) = recs.get(i as usize) {
+                    return Some(r.clone());
+                }
+            }
+        }
+    }
+    None
+}
+
 // ------------------------------------------------------------------------------------------------
 // pre-compilation structure (write-fonts objects) for the split shards
 
@@ -923,6 +1113,8 @@ enum Pre {
     PP1 { cov: Flat, fps: Vec<i64> },
     PP2 { cov: Flat, cd1: Flat, rowfp: Vec<i64>, c2n: usize },
     M2B { mcov: Flat, ncls: usize, marks: Vec<(i64, i64)>, rows: Vec<Vec<i64>> },
+    /// a subtable of a kind that is never split: exactly one compiled subtable
+    Other,
 }
 const SAMPLE_BASES: usize = 3;
 fn pre_of_lookup(l: &wgpos::PositionLookup) -> (u16, u16, Option<u16>, Vec<Pre>) {
@@ -976,6 +1168,9 @@ fn pre_of_lookup(l: &wgpos::PositionLookup) -> (u16, u16, Option<u16>, Vec<Pre>)
             }
             (4, l.lookup_flag.to_bits(), l.mark_filtering_set, v)
         }
+        wgpos::PositionLookup::MarkToMark(l) => (6, l.lookup_flag.to_bits(), l.mark_filtering_set, l.subtables.iter().map(|_| Pre::Other).collect()),
+        wgpos::PositionLookup::MarkToLig(l) => (5, l.lookup_flag.to_bits(), l.mark_filtering_set, l.subtables.iter().map(|_| Pre::Other).collect()),
+        wgpos::PositionLookup::Cursive(l) => (3, l.lookup_flag.to_bits(), l.mark_filtering_set, l.subtables.iter().map(|_| Pre::Other).collect()),
         _ => unreachable!(),
     }
 }
@@ -983,6 +1178,7 @@ fn pre_of_lookup(l: &wgpos::PositionLookup) -> (u16, u16, Option<u16>, Vec<Pre>)
 /// groups the compiled subtables by the pre-split subtable they came from, emits split shards
 fn emit_split_cases(pre: &[Pre], lk: &Lk, st: &mut Stats, cw: &mut Vec<String>, key: &str) {
     let mut k = 0usize;
+    let mut piece_counts: Vec<usize> = vec![];
     for p in pre {
         match p {
             Pre::PP1 { cov, fps } => {
@@ -1006,6 +1202,7 @@ fn emit_split_cases(pre: &[Pre], lk: &Lk, st: &mut Stats, cw: &mut Vec<String>, 
                     st.oracle_failure(json!({"key": format!("{}:pp1-piece-count", key), "what": "pair-set counts of the split pieces do not add up to the original subtable"}));
                     return;
                 }
+                piece_counts.push(pieces.len());
                 if pieces.len() > 1 {
                     st.count("split_pp1_subtables");
                     st.count(&format!("split_pp1_cov_format{}", cov.0));
@@ -1042,6 +1239,7 @@ fn emit_split_cases(pre: &[Pre], lk: &Lk, st: &mut Stats, cw: &mut Vec<String>, 
                     st.oracle_failure(json!({"key": format!("{}:pp2-piece-count", key), "what": "class1 counts of the split pieces do not add up"}));
                     return;
                 }
+                piece_counts.push(pieces.len());
                 if pieces.len() > 1 {
                     st.count("split_pp2_subtables");
                     if cov.1.len() <= 900 && cd1.1.len() <= 900 {
@@ -1080,6 +1278,7 @@ fn emit_split_cases(pre: &[Pre], lk: &Lk, st: &mut Stats, cw: &mut Vec<String>, 
                     st.oracle_failure(json!({"key": format!("{}:m2b-piece-count", key), "what": "mark class counts of the split pieces do not add up"}));
                     return;
                 }
+                piece_counts.push(pieces.len());
                 if pieces.len() > 1 {
                     st.count("split_m2b_subtables");
                     if mcov.1.len() <= 900 && marks.len() <= 900 {
@@ -1096,6 +1295,22 @@ fn emit_split_cases(pre: &[Pre], lk: &Lk, st: &mut Stats, cw: &mut Vec<String>, 
                     }
                 }
             }
+            Pre::Other => {
+                k += 1;
+                piece_counts.push(1);
+            }
+        }
+    }
+    // the lookup must advertise exactly the sum of the pieces (split_subtables: old count + sum over the split
+    // subtables of (pieces - 1)); anything else is a phantom or a lost subtable offset
+    if k != lk.subs.len() {
+        st.oracle_failure(json!({"key": format!("{}:subtable-count", key), "what": "compiled lookup's subtable count differs from the sum of the pieces of its input subtables",
+            "pieces": piece_counts, "compiled_count": lk.subs.len()}));
+    } else {
+        cw.push(format!("CSplitCount {} {}", czlist(piece_counts.iter().map(|v| *v as i128)), lk.subs.len()));
+        let nsplit = piece_counts.iter().filter(|c| **c > 1).count();
+        if piece_counts.len() > 1 {
+            st.count(&format!("multi_subtable_lookups_with_{}_split", nsplit.min(3)));
         }
     }
 }
@@ -1362,6 +1577,124 @@ fn gen_direct_pp1_k(rng: &mut Rng, target_bytes: usize, m1: u8, m2: u8) -> Spec 
     Spec::DirectPP1 { sets, vf: (Val::default(), Val::default()) }
 }
 
+fn gen_m2m_spec(rng: &mut Rng, target_bytes: usize, pool: &[Dev]) -> Spec {
+    match gen_m2b_spec(rng, target_bytes, pool) {
+        Spec::M2B { marks, bases } => Spec::M2M { marks, bases },
+        s => s,
+    }
+}
+
+/// a sequence of insert_ligature calls: sparse component lists (None at the start / middle / end / everywhere),
+/// differing component counts per ligature, classes in any order, repeated (ligature, class) calls
+fn gen_m2l_spec(rng: &mut Rng, pool: &[Dev]) -> Spec {
+    let ncls = 1 + rng.below(4) as usize;
+    let fancy = rng.chance(1, 3);
+    let mut id = 1i64;
+    let mut marks = vec![];
+    let mut g = 600u16;
+    for c in 0..ncls {
+        for _ in 0..1 + rng.below(3) {
+            marks.push((g, c, mk_anchor(rng, id, pool, fancy)));
+            id += 1;
+            g += 1 + rng.below(2) as u16;
+        }
+    }
+    let nl = 2 + rng.below(7) as usize;
+    let mut calls = vec![];
+    for l in 0..nl {
+        let lg = 3000 + l as u16 * 3 + rng.below(3) as u16; // distinct ligature glyphs: the component count is per glyph
+        let ncomp = 1 + rng.below(4) as usize;
+        let mut classes: Vec<usize> = (0..ncls).filter(|_| rng.chance(3, 4)).collect();
+        if classes.is_empty() {
+            classes.push(rng.below(ncls as u64) as usize);
+        }
+        if rng.chance(1, 4) {
+            classes.push(*rng.pick(&classes)); // the later call overwrites the components it gives
+        }
+        for c in classes {
+            let pattern = rng.below(7);
+            let comps: Vec<Option<Anc>> = (0..ncomp)
+                .map(|i| {
+                    let some = match pattern {
+                        0 => true,
+                        1 => i != 0,                  // None at the start
+                        2 => i + 1 != ncomp,          // None at the end
+                        3 => i == 0 || i + 1 == ncomp, // None in the middle
+                        4 => i + 1 == ncomp,          // only the last
+                        5 => false,
+                        _ => rng.chance(1, 2),
+                    };
+                    if some {
+                        id += 1;
+                        Some(mk_anchor(rng, id, pool, fancy))
+                    } else {
+                        None
+                    }
+                })
+                .collect();
+            calls.push((lg, c, comps));
+        }
+    }
+    if rng.chance(1, 2) {
+        rng.shuffle(&mut calls);
+    }
+    Spec::M2L { marks, ligs: calls }
+}
+
+fn gen_cursive_spec(rng: &mut Rng, pool: &[Dev]) -> Spec {
+    let n = 1 + rng.below(30) as usize;
+    let fancy = rng.chance(1, 3);
+    let mut items = vec![];
+    let mut g = 100 + rng.below(50) as u16;
+    for i in 0..n {
+        let k = rng.below(5);
+        let en = if k == 0 || k == 2 || k == 4 { Some(mk_anchor(rng, i as i64 * 2 + 1, pool, fancy)) } else { None };
+        let ex = if k == 1 || k == 2 || k == 4 { Some(mk_anchor(rng, i as i64 * 2 + 2, pool, fancy)) } else { None };
+        items.push((g, en, ex));
+        g += 1 + rng.below(3) as u16;
+    }
+    // a later insert for the same glyph replaces the record
+    for _ in 0..rng.below(3) {
+        let g = rng.pick(&items).0;
+        items.push((g, Some(mk_anchor(rng, 999, pool, false)), None));
+    }
+    Spec::Cursive { items }
+}
+
+/// 2-4 subtables (builders) of the same kind in ONE lookup, bit j of `big` = subtable j is oversized (> 64 KiB)
+fn gen_multi_spec(rng: &mut Rng, pool: &[Dev], kind: usize, n: usize, big: u32) -> Spec {
+    let k = 65536usize;
+    let target = |rng: &mut Rng, j: usize| if big & (1 << j) != 0 { k * 5 / 4 + rng.below(k as u64 / 2) as usize } else { 1500 + rng.below(20000) as usize };
+    match kind {
+        // PairPos: glyph-pair and class-pair builders alternating
+        0 => Spec::Multi(
+            (0..n)
+                .map(|j| {
+                    let t = target(rng, j);
+                    if j % 2 == 0 {
+                        gen_pair_glyph_spec_k(rng, t, pool, rng.0 % 2 == 0, false, Some((ALL_KINDS[(j * 3) % 14], 4)))
+                    } else {
+                        gen_pair_class_spec(rng, t, pool, false)
+                    }
+                })
+                .collect(),
+        ),
+        // MarkBase
+        1 => Spec::Multi((0..n).map(|j| { let t = target(rng, j); gen_m2b_spec(rng, t, pool) }).collect()),
+        // ONE PairPosBuilder whose glyph pairs fall into n value-format groups (one PairPos1 subtable per group)
+        _ => {
+            let mut pairs = vec![];
+            for j in 0..n {
+                let t = target(rng, j);
+                if let Spec::Pair { pairs: p, .. } = gen_pair_glyph_spec_k(rng, t, pool, j % 2 == 0, false, Some(([0u64, 2, 1, 9][j % 4], 4))) {
+                    pairs.extend(p);
+                }
+            }
+            Spec::Pair { pairs, classes: vec![] }
+        }
+    }
+}
+
 fn gen_m2b_spec(rng: &mut Rng, target_bytes: usize, pool: &[Dev]) -> Spec {
     let ncls = if target_bytes < 4000 { 1 + rng.below(4) as usize } else { 2 + rng.below(39) as usize };
     let fancy = rng.chance(1, 2);
@@ -1504,9 +1837,15 @@ fn run_gpos_case(case: &GposCase, rng: &mut Rng, st: &mut Stats, cw: &mut CaseWr
                 }
             }
             // semantics: every pair with a rule, plus a sample without
-            match &ls.spec {
-                Spec::Pair { pairs, classes } => {
-                    let sem = PairSem::new(pairs, classes);
+            let parts: Vec<&Spec> = match &ls.spec { Spec::Multi(v) => v.iter().collect(), s => vec![s] };
+            let all_pairs: Vec<(u16, u16, Val, Val)> = parts.iter().flat_map(|p| match p { Spec::Pair { pairs, .. } => pairs.clone(), _ => vec![] }).collect();
+            let all_classes: Vec<(Vec<u16>, Vec<u16>, Val, Val)> = parts.iter().flat_map(|p| match p { Spec::Pair { classes, .. } => classes.clone(), _ => vec![] }).collect();
+            match parts[0] {
+                Spec::Multi(_) => unreachable!(),
+                Spec::Pair { .. } => {
+                    let (pairs, classes) = (&all_pairs, &all_classes);
+                    let single = parts.len() == 1;
+                    let sem = MultiSem { segs: parts.iter().map(|p| match p { Spec::Pair { pairs, classes } => PairSem::new(pairs, classes), _ => panic!("mixed Multi") }).collect() };
                     let mut todo: Vec<(u16, u16)> = pairs.iter().map(|p| (p.0, p.1)).collect();
                     let mut firsts: BTreeSet<u16> = pairs.iter().map(|p| p.0).collect();
                     let mut seconds: BTreeSet<u16> = pairs.iter().map(|p| p.1).collect();
@@ -1536,7 +1875,7 @@ fn run_gpos_case(case: &GposCase, rng: &mut Rng, st: &mut Stats, cw: &mut CaseWr
                     }
                     let mut bad = 0;
                     let mut bad_order = 0;
-                    let order_check = !classes.is_empty() && classes.len() <= 64;
+                    let order_check = single && !classes.is_empty() && classes.len() <= 64;
                     let csets: Vec<(BTreeSet<u16>, BTreeSet<u16>)> = if order_check {
                         classes.iter().map(|c| (c.0.iter().copied().collect(), c.1.iter().copied().collect())).collect()
                     } else {
@@ -1550,7 +1889,7 @@ fn run_gpos_case(case: &GposCase, rng: &mut Rng, st: &mut Stats, cw: &mut CaseWr
                         // glyph-pair rule covers gets the value of the FIRST class rule (insertion order) covering it (the last
                         // one given for the identical class pair), or nothing (an earlier subtable covers glyph 1 without a rule
                         // for this pair) — never the value of a later, different rule
-                        if order_check && !sem.pair_map.contains_key(&(a, b)) {
+                        if order_check && !sem.has_specific_pair(a, b) {
                             let g = got.as_ref().map(eff2).unwrap_or_default();
                             let zero = <(([i16; 4], [Dev; 4]), ([i16; 4], [Dev; 4]))>::default();
                             let ok = g == zero
@@ -1607,43 +1946,144 @@ fn run_gpos_case(case: &GposCase, rng: &mut Rng, st: &mut Stats, cw: &mut CaseWr
                         }
                     }
                 }
-                Spec::M2B { marks, bases } => {
-                    let mut mm: BTreeMap<u16, (usize, Anc)> = BTreeMap::new();
-                    for (g, c, a) in marks {
-                        mm.insert(*g, (*c, a.clone()));
-                    }
-                    let mut bm: BTreeMap<u16, BTreeMap<usize, Anc>> = BTreeMap::new();
-                    for (g, c, a) in bases {
-                        bm.entry(*g).or_default().insert(*c, a.clone());
-                    }
-                    let total = mm.len() * bm.len();
+                Spec::M2B { .. } | Spec::M2M { .. } => {
+                    // one (marks, bases) map per builder; the first builder (= subtable) that has both anchors answers
+                    let mbs: Vec<(BTreeMap<u16, (usize, Anc)>, BTreeMap<u16, BTreeMap<usize, Anc>>)> = parts
+                        .iter()
+                        .map(|p| {
+                            let (marks, bases) = match p { Spec::M2B { marks, bases } | Spec::M2M { marks, bases } => (marks, bases), _ => panic!("mixed Multi") };
+                            let mut mm: BTreeMap<u16, (usize, Anc)> = BTreeMap::new();
+                            for (g, c, a) in marks {
+                                mm.insert(*g, (*c, a.clone()));
+                            }
+                            let mut bm: BTreeMap<u16, BTreeMap<usize, Anc>> = BTreeMap::new();
+                            for (g, c, a) in bases {
+                                bm.entry(*g).or_default().insert(*c, a.clone());
+                            }
+                            (mm, bm)
+                        })
+                        .collect();
+                    let mk: Vec<u16> = mbs.iter().flat_map(|x| x.0.keys().copied()).collect::<BTreeSet<u16>>().into_iter().collect();
+                    let bk: Vec<u16> = mbs.iter().flat_map(|x| x.1.keys().copied()).collect::<BTreeSet<u16>>().into_iter().collect();
+                    let total = mk.len() * bk.len();
                     let cap = if thorough { 600_000 } else { 150_000 };
                     let mut bad = 0;
                     let mut check = |m: u16, b: u16, lst: &mut Stats| {
-                        let exp = mm.get(&m).and_then(|(c, ma)| bm.get(&b).and_then(|row| row.get(c)).map(|ba| (ma.clone(), ba.clone())));
+                        let exp = mbs.iter().find_map(|(mm, bm)| mm.get(&m).and_then(|(c, ma)| bm.get(&b).and_then(|row| row.get(c)).map(|ba| (ma.clone(), ba.clone()))));
                         let got = walk_mark(&lk, m, b);
                         lst.evaluations += 1;
                         if exp != got {
                             bad += 1;
                             if bad <= 2 {
-                                lst.oracle_failure(json!({"key": format!("{}:l{}:mark", key, li), "what": "compiled mark-to-base lookup answers a mark/base pair differently from the input rules",
+                                lst.oracle_failure(json!({"key": format!("{}:l{}:mark", key, li), "what": "compiled mark attachment lookup answers a mark/base pair differently from the input rules",
                                     "mark": m, "base": b, "expected": format!("{:?}", exp), "got": format!("{:?}", got)}));
                             }
                         }
                     };
-                    for m in mm.keys() {
-                        for b in bm.keys() {
+                    for m in &mk {
+                        for b in &bk {
                             if total <= cap || sub_rng.chance(cap as u64, total as u64) {
                                 check(*m, *b, &mut lst);
                             }
                         }
                     }
-                    let mk: Vec<u16> = mm.keys().copied().collect();
-                    let bk: Vec<u16> = bm.keys().copied().collect();
                     for _ in 0..2000 {
                         let m = if sub_rng.chance(1, 2) { *sub_rng.pick(&mk) + sub_rng.below(2) as u16 } else { sub_rng.below(65536) as u16 };
                         let b = if sub_rng.chance(1, 2) { *sub_rng.pick(&bk) + sub_rng.below(2) as u16 } else { sub_rng.below(65536) as u16 };
                         check(m, b, &mut lst);
+                    }
+                }
+                Spec::M2L { marks, ligs } => {
+                    // expected matrix: the LAST anchor inserted for (ligature, component, class); None where nothing was inserted
+                    let mut mm: BTreeMap<u16, (usize, Anc)> = BTreeMap::new();
+                    for (g, c, a) in marks {
+                        mm.insert(*g, (*c, a.clone()));
+                    }
+                    let mut ncomp: BTreeMap<u16, usize> = BTreeMap::new();
+                    let mut exp: BTreeMap<(u16, usize, usize), Anc> = BTreeMap::new();
+                    for (g, c, comps) in ligs {
+                        ncomp.entry(*g).or_insert(comps.len());
+                        for (i, a) in comps.iter().enumerate() {
+                            if let Some(a) = a {
+                                exp.insert((*g, i, *c), a.clone());
+                            }
+                        }
+                    }
+                    let ncls = marks.iter().map(|m| m.1).collect::<BTreeSet<_>>().len();
+                    let mut bad = 0;
+                    // 1. the full ligature x component x class matrix as read back
+                    let m2l: Vec<&Sub> = lk.subs.iter().filter(|s| matches!(s, Sub::M2L { .. })).collect();
+                    if m2l.len() != 1 {
+                        lst.oracle_failure(json!({"key": format!("{}:l{}:lig-subtables", key, li), "what": "expected one MarkLigPos subtable"}));
+                    } else if let Sub::M2L { lcov, ligs: got, .. } = m2l[0] {
+                        // model correspondence: the calls for each ligature glyph (in order) vs the compiled component x class rows
+                        for g in ncomp.keys() {
+                            if let Some(rows) = lcov.get(gid(*g)).and_then(|i| got.get(i as usize)) {
+                                let calls: Vec<String> = ligs
+                                    .iter()
+                                    .filter(|c| c.0 == *g)
+                                    .map(|(_, c, comps)| format!("({}, {})", c, czlist(comps.iter().map(|a| a.as_ref().map(|a| hash30(a)).unwrap_or(-1) as i128))))
+                                    .collect();
+                                lcw.push(format!(
+                                    "CLigSeq [{}] {} {}",
+                                    calls.join("; "),
+                                    ncls,
+                                    clist(rows.iter(), |r| czlist(r.iter().map(|a| a.as_ref().map(|a| hash30(a)).unwrap_or(-1) as i128)))
+                                ));
+                            }
+                        }
+                        for (g, n) in &ncomp {
+                            lst.evaluations += 1;
+                            let want: Vec<Vec<Option<Anc>>> = (0..*n).map(|i| (0..ncls).map(|c| exp.get(&(*g, i, c)).cloned()).collect()).collect();
+                            let have = lcov.get(gid(*g)).and_then(|i| got.get(i as usize)).cloned();
+                            if have.as_ref() != Some(&want) {
+                                bad += 1;
+                                if bad <= 2 {
+                                    lst.oracle_failure(json!({"key": format!("{}:l{}:lig-matrix", key, li), "what": "ligature anchor matrix (component x class) differs from what was inserted",
+                                        "ligature": g, "expected": format!("{:?}", want), "got": format!("{:?}", have)}));
+                                }
+                            }
+                        }
+                    }
+                    // 2. attachment semantics for every mark x ligature x component (one past the last component too), and neighbours
+                    let mk: Vec<u16> = mm.keys().copied().collect();
+                    for m in mk.iter().flat_map(|m| [*m, m.wrapping_add(1)]) {
+                        for (g, n) in &ncomp {
+                            for l in [*g, g.wrapping_add(1)] {
+                                for i in 0..=*n {
+                                    lst.evaluations += 1;
+                                    let e = mm.get(&m).and_then(|(c, ma)| exp.get(&(l, i, *c)).map(|la| (ma.clone(), la.clone())));
+                                    let got = walk_lig(&lk, m, l, i);
+                                    if e != got {
+                                        bad += 1;
+                                        if bad <= 2 {
+                                            lst.oracle_failure(json!({"key": format!("{}:l{}:lig", key, li), "what": "compiled mark-to-ligature lookup answers (mark, ligature, component) differently from the input",
+                                                "mark": m, "ligature": l, "component": i, "expected": format!("{:?}", e), "got": format!("{:?}", got)}));
+                                        }
+                                    }
+                                }
+                            }
+                        }
+                    }
+                }
+                Spec::Cursive { items } => {
+                    let mut exp: BTreeMap<u16, (Option<Anc>, Option<Anc>)> = BTreeMap::new();
+                    for (g, en, ex) in items {
+                        exp.insert(*g, (en.clone(), ex.clone()));
+                    }
+                    let mut bad = 0;
+                    let probes: BTreeSet<u16> = exp.keys().flat_map(|g| [*g, g.wrapping_add(1), g.wrapping_sub(1)]).collect();
+                    for g in probes {
+                        lst.evaluations += 1;
+                        let e = exp.get(&g).cloned();
+                        let got = walk_cursive(&lk, g);
+                        if e != got {
+                            bad += 1;
+                            if bad <= 2 {
+                                lst.oracle_failure(json!({"key": format!("{}:l{}:cursive", key, li), "what": "compiled cursive lookup gives other entry/exit anchors than inserted",
+                                    "glyph": g, "expected": format!("{:?}", e), "got": format!("{:?}", got)}));
+                            }
+                        }
                     }
                 }
             }
@@ -2141,6 +2581,28 @@ fn main() {
             _ => gen_direct_pp1(&mut rng, t),
         };
         cases.push(mk(format!("small-{}", i), vec![s], &mut rng));
+    }
+    // mark-to-ligature, mark-to-mark and cursive builders
+    for i in 0..(if thorough { 600 } else { 120 }) {
+        let s = gen_m2l_spec(&mut rng, &pool);
+        cases.push(mk(format!("m2l-{}", i), vec![s], &mut rng));
+    }
+    for i in 0..(if thorough { 200 } else { 40 }) {
+        let s = gen_cursive_spec(&mut rng, &pool);
+        cases.push(mk(format!("cursive-{}", i), vec![s], &mut rng));
+        let t = [300usize, 3000, 20000][i % 3];
+        let s = gen_m2m_spec(&mut rng, t, &pool);
+        cases.push(mk(format!("m2m-{}", i), vec![s], &mut rng));
+    }
+    // lookups with 2-4 subtables of which none / one / two / all are oversized (same and mixed kinds)
+    for rep in 0..(if thorough { 5 } else { 1 }) {
+        for kind in 0..3usize {
+            for (mi, mask) in [0b0000u32, 0b0010, 0b0101, 0b1111, 0b0011].iter().enumerate() {
+                let n = 2 + (mi + kind + rep) % 3;
+                let s = gen_multi_spec(&mut rng, &pool, kind, n, *mask);
+                cases.push(mk(format!("multi-k{}-n{}-m{}-{}", kind, n, mask & ((1 << n) - 1), rep), vec![s], &mut rng));
+            }
+        }
     }
     // sequences of insert_classes / insert_pair calls: grouping of class rules into subtables is history dependent
     let nseq = if thorough { 1500 } else { 250 };
